@@ -26,6 +26,30 @@ impl Serialize for V {
 
 /// args {kind: "array"|"object", script: ["ok"|"fail_mid"|"fail_first", ..], keys?: [..]}
 pub fn script(a: &Value) -> Value {
+    // the solver's witness leaves the allocator's choices (capacities) open: when the witness script itself shows nothing, every script of up to three inserts
+    // over {ok, fails before writing, fails after writing} is run as well
+    if a.get("widen").and_then(|w| w.as_bool()).unwrap_or(false) {
+        let mut b = a.clone();
+        b.as_object_mut().unwrap().remove("widen");
+        let first = script(&b);
+        if first["violation"].as_bool().unwrap_or(false) {
+            return first;
+        }
+        let opts = ["ok", "fail_first", "fail_mid"];
+        for len in 1..=3usize {
+            for code in 0..opts.len().pow(len as u32) {
+                let mut c = code;
+                let sc: Vec<&str> = (0..len).map(|_| { let o = opts[c % 3]; c /= 3; o }).collect();
+                let mut b2 = b.clone();
+                b2["script"] = json!(sc);
+                let r = script(&b2);
+                if r["violation"].as_bool().unwrap_or(false) {
+                    return r;
+                }
+            }
+        }
+        return first;
+    }
     // without explicit keys the script is run once per rotation of the awkward-key list; any failing rotation is the verdict
     if a.get("keys").is_none() && a.get("rot").is_none() {
         let mut last = Value::Null;
@@ -121,6 +145,13 @@ fn containers() -> Value {
     }
     if !same(text(Vec::<u8>::new().to_rpc_params()), &json!([])) {
         why.push("an empty vector is not the empty array".to_string());
+    }
+    let none: [u8; 0] = [];
+    if !same(text((&none[..]).to_rpc_params()), &json!([])) {
+        why.push("an empty slice is not the empty array".to_string());
+    }
+    if !same(text(none.to_rpc_params()), &json!([])) {
+        why.push("an empty fixed-size array is not the empty array".to_string());
     }
     let mut m = serde_json::Map::new();
     m.insert("b".into(), json!(1));
